@@ -246,6 +246,13 @@ def run(ctx):
                'expression `%s` over %d probe strings)' % (txt(n.value), len(PROBES)), not wrong, loc=loc(c, n),
                detail='disagrees on %r' % wrong[:4] if wrong else '')
 
+    # T30: the quoting loop as a transducer over character classes (rules/cmdquote.py)
+    from rules import cmdquote
+    if nq:
+        cmdquote.check(ctx, c, BUF, OUT, CH, nq[0].targets[0].id)
+    else:
+        ctx.unknown('T30', c.fq, 'quoting flag not found', c.loc)
+
     # the backslash buffer is per argument: it is (re)initialised inside the loop over the arguments
     arg_loops = [n for n in ast.walk(c.node) if isinstance(n, ast.For) and txt(n.target) != CH and
                  any(isinstance(x, ast.For) and txt(x.target) == CH for x in ast.walk(n))]
